@@ -135,6 +135,17 @@ ASSUME = {
 }
 
 
+def compile_error_class(msg, header_text):
+    """Class of a compile failure of generated C: the first error with quoted text masked - except for the recorded finding
+    'an import whose module name starts with a digit becomes an identifier starting with a digit', whose gcc wording depends on
+    the characters that follow the digit (invalid suffix, exponent has no digits, ...): recognised by the declaration itself."""
+    if re.search(r"(^|[\s\*\(,;])\d\w*__\w+\s*\(", header_text, re.M):
+        return "import_symbol_starts_with_digit"
+    em = re.search(r"error: ([^\n]*)", msg)
+    first = re.sub(r"[‘'\"][^’'\"]*[’'\"]", "Q", em.group(1)) if em else "compile-error"
+    return safe_name(first)[:60]
+
+
 def validity_sample(prop, seed, exe, cdir, n, rdir):
     """Auxiliary (schedule-free): canonical outputs of sampled groups must compile file-by-file and link."""
     bad = []
@@ -165,9 +176,8 @@ def validity_sample(prop, seed, exe, cdir, n, rdir):
             except BuildError as e:
                 ok = False
                 msg = str(e)
-                em = re.search(r"error: ([^\n]*)", msg)
-                first = re.sub(r"[‘'\"][^’'\"]*[’'\"]", "Q", em.group(1)) if em else "compile-error"
-                bad.append({"idx": idx, "args": args, "error": msg[-900:], "class": safe_name(first)[:60]})
+                hdr = "".join(open(os.path.join(outdir, f), errors="replace").read() for f in os.listdir(outdir) if f.endswith(".h") and f in created)
+                bad.append({"idx": idx, "args": args, "error": msg[-900:], "class": compile_error_class(msg, hdr)})
             done += 1
         finally:
             shutil.rmtree(top, ignore_errors=True)
@@ -186,9 +196,8 @@ def validity_sample(prop, seed, exe, cdir, n, rdir):
                     run_cmd(["gcc", "-std=gnu89", "-w", "-fsyntax-only", "-DWASM_THREADS_PTHREADS", "-I" + os.path.join(REPO, "w2c2"), "-I" + wd, "p.c"], cwd=wd)
                 except BuildError as e:
                     msg = str(e)
-                    em = re.search(r"error: ([^\n]*)", msg)
-                    first = re.sub(r"[‘'\"][^’'\"]*[’'\"]", "Q", em.group(1)) if em else "compile-error"
-                    bad.append({"idx": 0, "args": "pinned:" + name, "error": msg[-900:], "class": safe_name(first)[:60]})
+                    hdr = open(os.path.join(wd, "p.h"), errors="replace").read() if os.path.exists(os.path.join(wd, "p.h")) else ""
+                    bad.append({"idx": 0, "args": "pinned:" + name, "error": msg[-900:], "class": compile_error_class(msg, hdr)})
                 done += 1
         finally:
             shutil.rmtree(wd, ignore_errors=True)
@@ -483,9 +492,8 @@ def compile_all_sample(cdir, rdir):
                                        cwd=wd, stdout=subprocess.PIPE, stderr=subprocess.STDOUT, timeout=600)
                     if c.returncode != 0:
                         msg = c.stdout.decode(errors="replace")
-                        em = re.search(r"error: ([^\n]*)", msg)
-                        first = re.sub(r"[‘'\"][^’'\"]*[’'\"]", "Q", em.group(1)) if em else "compile-error"
-                        res.append({"idx": 0, "args": tag, "error": "module %s translated with '%s': %s" % (m, tag, msg[-700:]), "class": safe_name(first)[:60]})
+                        hdr = open(os.path.join(wd, "x.h"), errors="replace").read() if os.path.exists(os.path.join(wd, "x.h")) else ""
+                        res.append({"idx": 0, "args": tag, "error": "module %s translated with '%s': %s" % (m, tag, msg[-700:]), "class": compile_error_class(msg, hdr)})
                         break
             except subprocess.TimeoutExpired:
                 res.append({"idx": 0, "args": tag, "error": "module %s translated with '%s': compile timed out" % (m, tag), "class": "compile-timeout"})
